@@ -23,25 +23,34 @@ Cmds == {"encrypt", "decrypt", "pass_encrypt", "pass_decrypt", "key_generate"}
 \* failure causes C13 lists, before any authenticated output exists
 EarlyCauses(cmd) ==
   CASE cmd = "encrypt" ->
-         {"bad_args", "missing_input", "same_in_out", "missing_keyring", "malformed_keyring", "unknown_recipient",
-          "unknown_sender", "no_private_key", "wrong_password", "unset_password", "refused_exchange"}
+         {"bad_args", "missing_input", "same_in_out", "missing_keyring", "malformed_keyring", "non_utf8_keyring", "unknown_recipient",
+          "unknown_sender", "no_private_key", "wrong_password", "unset_password", "non_utf8_password", "no_terminal", "refused_exchange"}
     [] cmd = "decrypt" ->
-         {"bad_args", "missing_input", "same_in_out", "missing_keyring", "malformed_keyring", "unknown_recipient",
-          "no_private_key", "wrong_password", "unset_password", "wrong_recipient",
+         {"bad_args", "missing_input", "same_in_out", "missing_keyring", "malformed_keyring", "non_utf8_keyring", "unknown_recipient",
+          "no_private_key", "wrong_password", "unset_password", "non_utf8_password", "no_terminal", "wrong_recipient",
           "bad_header", "other_mode_file", "corrupt_header", "truncated_header", "corrupt_first_chunk", "truncated_first_chunk"}
-    [] cmd = "pass_encrypt" -> {"bad_args", "missing_input", "same_in_out", "unset_password"}
+    [] cmd = "pass_encrypt" -> {"bad_args", "missing_input", "same_in_out", "unset_password", "non_utf8_password", "no_terminal"}
     [] cmd = "pass_decrypt" ->
-         {"bad_args", "missing_input", "same_in_out", "unset_password", "wrong_password",
+         {"bad_args", "missing_input", "same_in_out", "unset_password", "non_utf8_password", "no_terminal", "wrong_password",
           "bad_header", "other_mode_file", "corrupt_header", "truncated_header", "corrupt_first_chunk", "truncated_first_chunk"}
-    [] cmd = "key_generate" -> {"bad_args", "unset_password", "empty_name"}
+    [] cmd = "key_generate" -> {"bad_args", "unset_password", "non_utf8_password", "no_terminal", "empty_name"}
 \* the output itself cannot be written: its directory does not exist, the device is full, or stdout
 \* is a full device.  The operation did not complete: exit 1 with an error message (C12), nothing new
 \* at a regular output path (C13 by analogy).
 OutputCauses == {"output_dir_missing", "output_device_full", "stdout_full"}
 
+\* "non_utf8_password": KESTREL_PASSWORD holds bytes that are not UTF-8; "no_terminal": no --env-pass and neither a
+\* controlling terminal nor a terminal on stdin, so no password can be asked for; "non_utf8_keyring": the keyring file is
+\* not UTF-8 text.
+\* The input itself cannot be read (it is a directory: open succeeds, read fails).  Not one of C13's causes: the
+\* operation did not complete, so exit 1 with an error message (C10 at the process boundary, C12); the state of the
+\* output path is left open.
+InputCauses == {"input_read_error"}
+
 \* failures after the first chunk has been authenticated and written
 LateCauses(cmd) == IF cmd \in {"decrypt", "pass_decrypt"} THEN {"corrupt_later_chunk", "truncated_later_chunk", "appended_data"} ELSE {}
 Causes(cmd) == {"none"} \cup EarlyCauses(cmd) \cup LateCauses(cmd) \cup OutputCauses
+               \cup (IF cmd = "key_generate" THEN {} ELSE InputCauses)
 
 UsesKeyring(cmd) == cmd \in {"encrypt", "decrypt"}
 HasInput(cmd) == cmd # "key_generate"
@@ -55,7 +64,7 @@ Configs ==
      /\ (c.cmd # "decrypt" => c.sender = "first")
      /\ (~HasInput(c.cmd) => c.inp = "stdin")                  \* key generate reads the name from stdin
      /\ (c.outp = "stdout" => c.prior = "absent")               \* no output path
-     /\ (c.cause = "missing_input" => c.inp = "file")
+     /\ (c.cause \in {"missing_input", "input_read_error"} => c.inp = "file")
      /\ (c.cause = "same_in_out" => (c.inp = "file" /\ c.outp = "file" /\ c.prior = "present"))
      /\ (c.cmd = "key_generate" => c.cause # "same_in_out")
      /\ (c.cause \in {"output_dir_missing", "output_device_full"} => (c.outp = "file" /\ c.prior = "absent"))
@@ -84,6 +93,8 @@ Expected(c) ==
   ELSE IF c.cause \in OutputCauses
   THEN [exit |-> 1, errline |-> TRUE,
         out |-> IF c.cause = "output_dir_missing" THEN "absent" ELSE "n/a", named |-> "n/a"]
+  ELSE IF c.cause \in InputCauses
+  THEN [exit |-> 1, errline |-> TRUE, out |-> "n/a", named |-> "n/a"]
   ELSE IF c.cause \in LateCauses(c.cmd)
   THEN [exit |-> 1, errline |-> TRUE,
         \* test files have two chunks and the damage is in / after the second: the first chunk is the
